@@ -274,6 +274,56 @@ def run(check, repo: Repo) -> None:
                                ": two runs from the same seed no longer produce identical loss histories", m.line(c))
     check.floor("stochastic call sites in the reconstruction modules", n_sto, 6)
     check.holds("C09-R4", "reconstruction modules: every stochastic call draws from self.rng / _rng_torch", f"{n_sto} sites")
+    # ---- R7 index arrays are the batcher's own ----------------------------------------------------------------------------------------------
+    # Two sites cooperate: (a) the index arrays of a batcher come from a call-cached producer (lru_cache / cache: every batcher of that size gets the SAME array object);
+    # (b) some method reorders / writes such an array in place (rng.shuffle, .sort(), subscript store).  Either alone is deterministic; together one epoch's shuffle
+    # is the next batcher's starting order — same seed, different schedule.
+    bm_ = repo.module(PU)
+    cached_names = set()
+    for st_ in bm_.tree.body:
+        if isinstance(st_, ast.Assign) and isinstance(st_.value, ast.Call) and isinstance(st_.value.func, ast.Call) and (call_name(st_.value.func) or "").split(".")[-1] in ("lru_cache", "cache"):
+            cached_names |= {t.id for t in st_.targets if isinstance(t, ast.Name)}
+        if isinstance(st_, ast.Assign) and isinstance(st_.value, ast.Call) and (call_name(st_.value) or "").split(".")[-1] == "cache":
+            cached_names |= {t.id for t in st_.targets if isinstance(t, ast.Name)}
+        if isinstance(st_, ast.FunctionDef) and any("cache" in unparse(d_) for d_ in st_.decorator_list):
+            cached_names.add(st_.name)
+    _, binit = repo.func(f"{PU}:SimpleBatcher.__init__")
+    shared_attrs, grew = set(), True
+    while grew:
+        grew = False
+        for n_ in ast.walk(binit):
+            if isinstance(n_, ast.Assign):
+                v_ = n_.value
+                while isinstance(v_, ast.Subscript) and isinstance(v_.slice, ast.Slice):
+                    v_ = v_.value  # a basic slice is a view of the same storage
+                src_shared = (isinstance(v_, ast.Call) and isinstance(v_.func, ast.Name) and v_.func.id in cached_names) or (dotted(v_) or "") in shared_attrs \
+                    or (isinstance(v_, ast.Name) and v_.id in shared_attrs)
+                if src_shared:
+                    for t_ in n_.targets:
+                        k_ = dotted(t_)
+                        if k_ and k_ not in shared_attrs:
+                            shared_attrs.add(k_)
+                            grew = True
+    inplace_sites = []
+    for f_ in [x for x in bcls.body if isinstance(x, ast.FunctionDef)]:
+        for c_ in calls_in(f_):
+            cn_ = call_name(c_) or ""
+            if cn_.split(".")[-1] == "shuffle" and c_.args and (dotted(c_.args[0]) or "") in shared_attrs:
+                inplace_sites.append((f_.name, c_))
+            if isinstance(c_.func, ast.Attribute) and c_.func.attr in ("sort", "fill", "put", "partition", "resize") and (dotted(c_.func.value) or "") in shared_attrs:
+                inplace_sites.append((f_.name, c_))
+        for x_ in ast.walk(f_):
+            if isinstance(x_, (ast.Assign, ast.AugAssign)):
+                for t_ in (x_.targets if isinstance(x_, ast.Assign) else [x_.target]):
+                    if isinstance(t_, ast.Subscript) and (dotted(t_.value) or "") in shared_attrs:
+                        inplace_sites.append((f_.name, x_))
+    key7 = "SimpleBatcher: index arrays that are reordered in place are the batcher's own (not an object a call cache hands to every batcher of that size)"
+    if inplace_sites:
+        check.violated("C09-R7", key7, f"`{sorted(shared_attrs)[0]}` comes from the call-cached `{sorted(cached_names)[0]}` and SimpleBatcher.{inplace_sites[0][0]} executes "
+                       f"`{unparse(inplace_sites[0][1])[:50]}` on it: the shuffle of one epoch permanently reorders the array the next batcher (after a reset, or in a fresh object "
+                       f"with the same seed) starts from — identical seeds no longer give identical schedules", bm_.line(inplace_sites[0][1]), definite=True)
+    else:
+        check.holds("C09-R7", key7, f"call-cached producers: {sorted(cached_names) or 'none'}; shared attributes: {sorted(shared_attrs) or 'none'}; in-place reorderings of them: none", bm_.line(binit))
     # the batcher is built with the reconstruction's generator
     pmod, rec = repo.func(f"{PT}:Ptychography.reconstruct")
     bc = [c for c in calls_in(rec) if call_name(c) == "SimpleBatcher"]
